@@ -195,7 +195,9 @@ def run(out, prop, tier, seed, max_replay=None, only_slices=None):
                 out.add_drift('slice=%s at=%s expected=%s got=%s procOk=%s [%s]' % (
                     sl, v['at'], v['expected'], v['got'], v['procOk'], brief(tr)))
     # vacuity guard: every action of the specification must have been taken in the slices of this run
-    never = [a for a in ACTIONS if out.extra.get('action_coverage', {}).get(a, 0) == 0]
+    need = [a for a in ACTIONS if not (a in ('Bor', 'BSea') and all(SLICES[x][2] == 0 for x in slices))
+            and not (a == 'Sea' and all(SLICES[x][1] == 0 for x in slices))]
+    never = [a for a in need if out.extra.get('action_coverage', {}).get(a, 0) == 0]
     if never and not only_slices:
         out.machinery_errors.append('actions of MibCompile never taken in this run (vacuous): %s' % never)
     if prop == 'C08' and not only_slices:
